@@ -169,7 +169,8 @@ struct Totals {
     shapes: HashSet<u64>,
     samples: Vec<Value>,
     cases_run: u64,
-    violations: Vec<(String, u64, Value)>, // (sig, case, detail)
+    violations: Vec<(String, u64, Value)>, // (sig, case, detail): a bounded sample per signature
+    viol_counts: BTreeMap<String, u64>,
     harness_errors: Vec<Value>,
     deaths: Vec<Value>,
     inconclusive: u64,
@@ -273,6 +274,7 @@ pub fn run(check: &dyn Check, opts: &RunOpts) -> i32 {
         samples: Vec::new(),
         cases_run: 0,
         violations: Vec::new(),
+        viol_counts: BTreeMap::new(),
         harness_errors: Vec::new(),
         deaths: Vec::new(),
         inconclusive: 0,
@@ -306,16 +308,37 @@ pub fn run(check: &dyn Check, opts: &RunOpts) -> i32 {
                     s.open_case = None;
                     tot.cases_run += 1;
                 } else if let Some(rest) = l.strip_prefix("V ") {
-                    if let Ok(v) = serde_json::from_str::<Value>(rest) {
-                        let sig = v["sig"].as_str().unwrap_or("?").to_string();
-                        let case = v["case"].as_u64().unwrap_or(0);
-                        if tot.violations.len() < 5000 {
-                            tot.violations.push((sig, case, v["detail"].clone()));
+                    // a violation record must never be lost: if the line does not parse (e.g. a
+                    // witness nested too deeply for the JSON parser) recover signature and case by hand
+                    let (sig, case, detail) = match serde_json::from_str::<Value>(rest) {
+                        Ok(v) => (v["sig"].as_str().unwrap_or("?").to_string(), v["case"].as_u64().unwrap_or(0), v["detail"].clone()),
+                        Err(e) => {
+                            let grab = |key: &str| -> Option<String> {
+                                let pat = format!("\"{}\":", key);
+                                let i = rest.find(&pat)? + pat.len();
+                                let tail = rest[i..].trim_start();
+                                if let Some(t) = tail.strip_prefix('"') {
+                                    Some(t.split('"').next().unwrap_or("").to_string())
+                                } else {
+                                    Some(tail.chars().take_while(|c| c.is_ascii_digit()).collect())
+                                }
+                            };
+                            (
+                                grab("sig").unwrap_or_else(|| "unparseable-violation-record".to_string()),
+                                grab("case").and_then(|c| c.parse().ok()).or(shards[i].open_case).unwrap_or(0),
+                                json!({"note": format!("witness could not be parsed by the supervisor ({}); re-run the case for details", e), "raw_head": rest.chars().take(400).collect::<String>()}),
+                            )
                         }
+                    };
+                    let c = tot.viol_counts.entry(sig.clone()).or_insert(0);
+                    *c += 1;
+                    if *c <= 20 {
+                        tot.violations.push((sig, case, detail));
                     }
                 } else if let Some(rest) = l.strip_prefix("A ") {
-                    if let Ok(v) = serde_json::from_str::<Value>(rest) {
-                        merge_agg(&mut tot, &v, max_samples);
+                    match serde_json::from_str::<Value>(rest) {
+                        Ok(v) => merge_agg(&mut tot, &v, max_samples),
+                        Err(e) => tot.harness_errors.push(json!({"shard": i, "error": format!("unparseable aggregate record: {}", e)})),
                     }
                 } else if let Some(rest) = l.strip_prefix("H ") {
                     if let Ok(v) = serde_json::from_str::<Value>(rest) {
@@ -365,6 +388,7 @@ pub fn run(check: &dyn Check, opts: &RunOpts) -> i32 {
                     Some(k) => {
                         tot.cases_run += 1;
                         let sig = check.death_signature(&how);
+                        *tot.viol_counts.entry(sig.clone()).or_insert(0) += 1;
                         tot.violations.push((
                             sig,
                             k,
@@ -429,7 +453,11 @@ fn finish(
     let mut unlisted = 0u64;
     let mut known_seen: Vec<String> = Vec::new();
     let mut viol_summ: Vec<Value> = Vec::new();
-    for (sig, (count, case, detail)) in by_sig.iter() {
+    for (sig, (count, case, detail)) in by_sig.iter_mut() {
+        if let Some(c) = tot.viol_counts.get(sig) {
+            *count = *c;
+        }
+        let (count, case, detail) = (&*count, &*case, &*detail);
         if let Some(k) = known.iter().find(|k| &k.sig == sig) {
             println!("KNOWN-FINDING: property={} {} [signature={} seen {}x]", id, k.text, sig, count);
             known_seen.push(sig.clone());
